@@ -74,6 +74,12 @@ pub fn run(out: &mut Out, thorough: bool) {
                     let q: PoKSignature<CL03<CS>> = from_jv(&t);
                     out.check(&format!("{}/transplant/{}", tag, part), "proof_verify", vec![format!("{} taken from a proof about other attributes", part)], false, &["transplant"], || q.proof_verify(&cpk, pk, &bases, &rev, &u, n));
                 }
+                let mut t = jp.clone();
+                for part in ["range_proofs_commited_mi", "proofs_commited_mi"] {
+                    set(&mut t, &format!("/CL03/{}", part), at(&jo, &format!("/CL03/{}", part)).clone());
+                }
+                let q: PoKSignature<CL03<CS>> = from_jv(&t);
+                out.check(&format!("{}/transplant/per-attribute-block", tag), "proof_verify", vec!["proofs of value together with their range proofs taken from a proof about other attributes".into()], false, &["transplant", "unlinked"], || q.proof_verify(&cpk, pk, &bases, &rev, &u, n));
             }
             // single-field perturbations of every integer of the serialized proof (+1, -1, zero; quick: a sample)
             let jp = jv(&p);
